@@ -44,7 +44,9 @@ pub struct Case {
     pub repeat: u32,
     /// 0 = a node with one plain database; 1 = a node in a richer state: the probe database uses the arbiter strategy, an
     /// arbiter client and a watcher are connected, keys k and k_x have been written several times, one conflict on k_x is
-    /// waiting for the arbiter (commands whose handlers only do something in such a state)
+    /// waiting for the arbiter (commands whose handlers only do something in such a state); 2 = world 0 on a node that is
+    /// not the primary and knows no primary (the first second after its start, or while an election is running): the
+    /// branches that forward to the primary run with nobody to forward to
     #[serde(default)]
     pub world: u8,
 }
@@ -67,7 +69,7 @@ fn line_strategy() -> impl Strategy<Value = String> {
 pub fn case_strategy() -> impl Strategy<Value = Case> {
     (select(vec![Auth::None, Auth::Admin, Auth::AdminDb, Auth::DbToken]), prop::collection::vec(line_strategy(), 1..5), prop_oneof![6 => Just(1u32), 1 => Just(101u32), 1 => Just(150u32)])
         .prop_map(|(auth, lines, repeat)| Case { auth, lines, repeat, world: 0 })
-        .prop_flat_map(|c| prop_oneof![2 => Just(0u8), 1 => Just(1u8)].prop_map(move |w| Case { world: w, ..c.clone() }))
+        .prop_flat_map(|c| prop_oneof![3 => Just(0u8), 2 => Just(1u8), 1 => Just(2u8)].prop_map(move |w| Case { world: w, ..c.clone() }))
 }
 
 fn always_virtual(_ns: u64) -> bool {
@@ -146,6 +148,12 @@ pub fn run_case(ctx: &Ctx, case: &Case) -> Outcome {
         admin.send(&node, "set k pending-write");
     }
     node.pump();
+    if case.world == 2 {
+        let role = if case.lines.len() % 2 == 0 { nundb::bo::ClusterRole::Secoundary } else { nundb::bo::ClusterRole::StartingUp };
+        node.dbs.node_state.swap(role as usize, std::sync::atomic::Ordering::SeqCst);
+        // (nobody is known as the primary, the node itself included)
+        node.dbs.cluster_state.lock().unwrap().members.lock().unwrap().clear();
+    }
     let pending_id: String = node.dbs.pending_opps.read().unwrap().keys().max().map(|k| k.to_string()).unwrap_or_else(|| "7".to_string());
     let mut s = Session::new();
     match case.auth {
@@ -257,7 +265,7 @@ fn short(s: &str) -> String {
 fn systematic() -> Vec<Case> {
     let fill = ["probe", "5", "k", "7", "v"];
     let mut out = vec![];
-    for (world, auth) in [(0u8, Auth::None), (0, Auth::Admin), (0, Auth::AdminDb), (0, Auth::DbToken), (1, Auth::AdminDb), (1, Auth::DbToken)] {
+    for (world, auth) in [(0u8, Auth::None), (0, Auth::Admin), (0, Auth::AdminDb), (0, Auth::DbToken), (1, Auth::AdminDb), (1, Auth::DbToken), (2, Auth::AdminDb), (2, Auth::DbToken)] {
         for w in words() {
             for pos in 0..4usize {
                 for t in tokens() {
